@@ -4,6 +4,7 @@ CONSTANTS
   MaxGap = 1
   KeyCps <- KeysAB
   Yaml = TRUE
+  ImplMutant = "none"
   AllowDup = FALSE
 INVARIANTS InvLayout InvUnique InvInnermost InvPath InvReach
 CHECK_DEADLOCK FALSE
